@@ -176,6 +176,9 @@ class FileModel:
         self.found = {}
         for p, c in self.attempt.items():
             f = And(c, peg.any_of(self.m.match(lm, p, False, False)))
+            # alternatives listed before log_macro in the file loop win over it
+            for alt in self.before_log_macro:
+                f = And(f, Not(peg.any_of(self.m.match(alt, p, False, False))))
             if f is not False:
                 self.found[p] = f
         self._views = {}
@@ -183,14 +186,21 @@ class FileModel:
         self.commentsearch = rx.Search(src.comment_regex, text)
 
     def _check_file_rule(self):
+        """file = SOI ~ (alt_1 | .. | log_macro | .. | ANY)* ~ EOI ; find() only looks at log_macro tokens"""
         r = self.src.rules.get("file")
         ok = (r is not None and r.expr.kind == "seq" and len(r.expr.a) == 3 and r.expr.a[0].kind == "ident"
               and r.expr.a[0].a == "SOI" and r.expr.a[2].kind == "ident" and r.expr.a[2].a == "EOI"
-              and r.expr.a[1].kind == "rep" and r.expr.a[1].b == (0, None) and r.expr.a[1].a.kind == "choice"
-              and [x.a for x in r.expr.a[1].a.a] == ["log_macro", "ANY"])
+              and r.expr.a[1].kind == "rep" and r.expr.a[1].b == (0, None))
+        if ok:
+            inner = r.expr.a[1].a
+            alts = inner.a if inner.kind == "choice" else [inner]
+            names = [x.a if x.kind == "ident" else None for x in alts]
+            ok = "log_macro" in names and names[-1] == "ANY"
         if not ok:
-            raise Unsupported("the `file` rule no longer has the shape SOI ~ (log_macro | ANY)* ~ EOI")
+            raise Unsupported("the `file` rule no longer has the shape SOI ~ (.. | log_macro | .. | ANY)* ~ EOI")
         self.item = r.expr.a[1].a
+        self.item_alts = alts
+        self.before_log_macro = alts[:names.index("log_macro")]
 
     def _attempts(self):
         """attempt[p]: the file loop tries an item at position p."""
